@@ -32,6 +32,9 @@ more behaviours than the code has):
 * a walker may yield after any number of edges, at most `k` times (`k` any number, per task; the
   code: after every 16th edge, so `k = ⌊len / 16⌋`);
 * the set is the small tier: one vector behind one `RwLock` (the large tier blocks per shard);
+* `walkBegin` gives the walker the content at that event (`todo := content`): the iterator owns the vector's read
+  guard while it is read/drained — `RI` (Model/RelockIter.lean) proves that such an iterator returns exactly that
+  content (`guarded_iter_is_snapshot`) and that one re-locking per `next()` does not (`relocking_iter_misses_present_element`);
 * taking the read guards is always possible between two events (a writer holds its lock only inside
   one event); `parking_lot` letting a *waiting* writer keep new readers out only removes behaviours
   of the as-is system and is irrelevant to the witness (its walker is the first to take the lock).
